@@ -115,9 +115,21 @@ def raw_size(o):
     return {"uint8_t": 1, "int8_t": 1, "uint16_t": 2, "int16_t": 2, "uint32_t": 4, "int32_t": 4, "uint64_t": 8, "int64_t": 8}[o.raw_type]
 
 
+def has_last(e):
+    if not isinstance(e, gen.N):
+        return False
+    if e.kind == "last":
+        return True
+    return any(has_last(getattr(e, f, None)) for f in ("a", "b", "e"))
+
+
 class RI:
-    def __init__(self, prog, inp, with_end=False, decisions=()):
+    def __init__(self, prog, inp, with_end=False, decisions=(), reread=False, stale_last=False):
         self.prog = prog
+        self.reread = reread               # alternate world used only to classify known finding K6 (see check())
+        self.rewound = False
+        self.stale_last = stale_last       # alternate world for known finding K7: $last after a yield is the next byte
+        self.yield_pos = -1
         self.inp = list(inp) + ([END] if with_end else [])
         self.ndata = len(inp)
         self.with_end = with_end
@@ -203,8 +215,14 @@ class RI:
 
     # -- expressions -------------------------------------------------------------------------------
     def ev(self, e):
+        last = self.last
+        if self.stale_last and self.yield_pos == self.pos and not self.in_byte and has_last(e):
+            c = self.peek()                # the actions behind a yield run when the parser is resumed, with the next byte current
+            if c != END:
+                last = c
+                self.flags.add("stale-last-applied")
         try:
-            return carith.ev(e, self.store.env(self.last))
+            return carith.ev(e, self.store.env(last))
         except carith.UB as u:
             raise Unknown("user expression has undefined behaviour: %s" % u)
 
@@ -302,6 +320,10 @@ class RI:
             t, v = self.ev(s.e)
             if st.v[s.var][1] >= st.cap(o):
                 self.fail_slack = not self.in_byte
+                if self.reread and not self.in_byte and 0 < self.pos <= self.ndata:
+                    # K6: the append runs on the transition that consumed the previous byte and the handler is given that byte again
+                    self.pos -= 1
+                    self.rewound = True
                 self.error(OutOfSpace())
             before = st.save()
             self.buf_append(s.var, v)
@@ -320,6 +342,7 @@ class RI:
             if self.with_end and self.pos > self.ndata:
                 self.flags.add("yield-after-end")
             self.emit("yield", s.code, droppable=False)
+            self.yield_pos = self.pos
         elif k == "finish":
             self.emit("finish", s.code, droppable=False)
             raise Finished(s.code)
@@ -370,6 +393,9 @@ class RI:
             except OutOfSpace:
                 if "outofspace" not in reasons:
                     raise
+                if self.rewound:
+                    self.rewound = False
+                    self.flags.add("reread-handled")
                 self.block(s.handler, loops)
         elif k == "foreach":
             self.foreach(s, loops)
@@ -595,6 +621,24 @@ def match_trace(r, items, prog_c, nbytes, stats, pointers=False):
 
 def check(prog_ast, inp, items, prog_c, stats, with_end=False, max_runs=40, pointers=False):
     """search over 'pending effects dropped at an error' decisions (slack rule 4). -> None | (what, text) | ('unknown', why)"""
+    v = _search(prog_ast, inp, items, prog_c, stats, with_end, max_runs, pointers, False)
+    if v is None or v[0] == "unknown":
+        return v
+    # classification only: does the known mechanism K6 (a char-append that overflows on the transition that consumed the previous
+    # byte hands that byte to the out-of-space handler a second time) explain the whole trace?
+    alt = _search(prog_ast, inp, items, prog_c, {}, with_end, max_runs, pointers, "reread")
+    if alt == "explained":
+        stats["explained_by_reread"] = stats.get("explained_by_reread", 0) + 1
+        return ("handler-rereads-byte[eager-append-overflow]", "explained by the handler re-reading the last consumed byte; primary symptom: %s: %s" % v)
+    # K7: $last read by an action that follows a yield (no byte consumed in between) evaluates to the next input byte
+    alt = _search(prog_ast, inp, items, prog_c, {}, with_end, max_runs, pointers, "stale_last")
+    if alt == "explained":
+        stats["explained_by_stale_last"] = stats.get("explained_by_stale_last", 0) + 1
+        return ("last-after-yield-is-next-byte", "explained by $last evaluating to the byte that follows the yield; primary symptom: %s: %s" % v)
+    return v
+
+
+def _search(prog_ast, inp, items, prog_c, stats, with_end, max_runs, pointers, reread):
     tried = 0
     queue = [()]
     seen = set()
@@ -606,13 +650,16 @@ def check(prog_ast, inp, items, prog_c, stats, with_end=False, max_runs=40, poin
         seen.add(dec)
         tried += 1
         try:
-            r = RI(prog_ast, inp, with_end=with_end, decisions=dec).run()
+            r = RI(prog_ast, inp, with_end=with_end, decisions=dec, reread=reread == "reread", stale_last=reread == "stale_last").run()
         except Unknown as u:
             return ("unknown", str(u))
         except RecursionError:
             return ("unknown", "recursion")
         v = match_trace(r, items, prog_c, len(inp), stats, pointers=pointers)
-        if v is None:
+        if reread:
+            if v is None:
+                return "explained" if ("reread-handled" if reread == "reread" else "stale-last-applied") in r.flags else "not-explained"
+        elif v is None:
             if dec:
                 stats["needed_drop_rule"] = stats.get("needed_drop_rule", 0) + 1
                 if any(d is not None and d != 0 for d in dec):
